@@ -95,3 +95,72 @@ func c15users(c *Ctx) {
 		c.R.Undecided(rule, "users#sites", "the in-tree users (cache.New, kv.NewStore) are recognised", fmt.Sprintf("%d call sites", sites))
 	}
 }
+
+// c15pureHash (R7, round 5): "the mapping depends only on the node set" — across processes and restarts too, since
+// every instance of a service must route a key to the same cache node. The default hash function is a pure
+// function of its input: its result derives from the data parameter and constants only — no package-level variable
+// (a per-process random seed), no clock, no random source (seed r5-C15-2).
+func c15pureHash(c *Ctx) {
+	rule := "C15.R7"
+	f := c.fn(rule, hashPkg, "Hash")
+	if f == nil {
+		return
+	}
+	var bad []string
+	seen := map[ssa.Value]bool{}
+	var walk func(v ssa.Value)
+	walk = func(v ssa.Value) {
+		if v == nil || seen[v] {
+			return
+		}
+		seen[v] = true
+		switch x := v.(type) {
+		case *ssa.Parameter, *ssa.Const, *ssa.Function, *ssa.Builtin:
+			return
+		case *ssa.Global:
+			bad = append(bad, fmt.Sprintf("the hash depends on package-level variable %s (state that differs between processes makes two instances route one key to different nodes)", x.Name()))
+			return
+		case *ssa.Call:
+			if sc := x.Call.StaticCallee(); sc != nil && sc.Pkg != nil {
+				switch p := sc.Pkg.Pkg.Path(); {
+				case p == "math/rand" || p == "math/rand/v2" || p == "crypto/rand" || p == "time" || p == "os" || p == "hash/maphash":
+					bad = append(bad, "the hash depends on "+p+"."+sc.Name())
+				}
+			}
+		}
+		if ins, ok := v.(ssa.Instruction); ok {
+			for _, op := range ins.Operands(nil) {
+				if *op != nil {
+					walk(*op)
+				}
+			}
+		}
+	}
+	n := 0
+	for _, b := range f.Blocks {
+		for _, ins := range b.Instrs {
+			if r, ok := ins.(*ssa.Return); ok {
+				n++
+				for _, res := range r.Results {
+					walk(res)
+				}
+			}
+		}
+	}
+	sort.Strings(bad)
+	c.R.Check(len(bad) == 0 && n > 0, rule, hashPkg+".Hash#pure", "the ring's default hash is a pure function of its input (derives from the data and constants only): the key→node mapping is the same in every process", posOf(c, f), strings.Join(bad, "; "), bad, n)
+	// and it is the default of the ring
+	if g := c.fn(rule, hashPkg, "NewCustomConsistentHash"); g != nil {
+		uses := false
+		for _, b := range g.Blocks {
+			for _, ins := range b.Instrs {
+				for _, op := range ins.Operands(nil) {
+					if fn, ok := (*op).(*ssa.Function); ok && fn == f {
+						uses = true
+					}
+				}
+			}
+		}
+		c.R.Check(uses, rule, hashPkg+".NewCustomConsistentHash#default", "a ring built without a hash function uses hash.Hash", posOf(c, g), "the default hash function is not hash.Hash: its purity is not checked", nil, 1)
+	}
+}
